@@ -280,7 +280,7 @@ func (lc *layoutCtx) sizeOf(tid uint32, mj majorness) uint32 {
 	return 0
 }
 
-// containsMatrix reports whether tid is a matrix, possibly through arrays.
+// matrixThroughArrays returns the matrix type behind tid (possibly through arrays), or nil.
 func (m *module) matrixThroughArrays(tid uint32) *Type {
 	t := m.stripArrays(tid)
 	if t != nil && t.Kind == tkMatrix {
